@@ -287,12 +287,25 @@ class Gen:
         if k < 0.7:
             return self.simple_select()
         if k < 0.85:
-            op = r.choice(['UNION', 'UNION ALL', 'INTERSECT', 'EXCEPT'])
-            self.features.add('setop:' + op)
-            t1, t2 = r.choice(['t1', 't2']), r.choice(['t1', 't2'])
-            a = f'SELECT p.id AS id, p.a AS a FROM {self.qual(t1)} AS p' + (f' WHERE {self.bool_expr([("p", t1)], 1)}' if r.random() < 0.6 else '')
-            b = f'SELECT q.id AS id, q.a AS a FROM {self.qual(t2)} AS q' + (f' WHERE {self.bool_expr([("q", t2)], 1)}' if r.random() < 0.6 else '')
-            return f'{a} {op} {b}', False
+            # a chain of one to three set operations (all left-associative with equal precedence, in the library's
+            # grammar and in SQLite alike); selecting only the non-unique column makes ALL / DISTINCT observable
+            cols = r.choice(['id-a', 'id-a', 'a', 'a', 'a-const'])
+            n_ops = r.choice([1, 1, 1, 2, 2, 3])
+            parts, ops = [], []
+            for i in range(n_ops + 1):
+                t = r.choice(['t1', 't2'])
+                al = 'pqrs'[i]
+                sel = {'id-a': f'{al}.id AS id, {al}.a AS a', 'a': f'{al}.a AS a', 'a-const': f'{al}.a AS a, 1 AS k'}[cols]
+                parts.append(f'SELECT {sel} FROM {self.qual(t)} AS {al}' + (f' WHERE {self.bool_expr([(al, t)], 1)}' if r.random() < 0.5 else ''))
+            text = parts[0]
+            for i in range(n_ops):
+                op = r.choice(['UNION', 'UNION ALL', 'INTERSECT', 'EXCEPT'])
+                ops.append(op)
+                self.features.add('setop:' + op)
+                text += f' {op} {parts[i + 1]}'
+            if n_ops > 1:
+                self.features.add('setop-chain:' + '>'.join(o.replace(' ', '_') for o in ops))
+            return text, False
         if k < 0.93:
             self.features.add('cte')
             inner, _ = self.simple_select(with_order=False, allow_limit=False, subq=False)
@@ -310,7 +323,7 @@ class Gen:
         self.features.add('stmt:' + k)
         if k == 'insert-values':
             rows = ', '.join(f"({r.randint(10, 99)}, {r.choice(['NULL', '1', '2', '-3'])}, {r.choice(['NULL', '0.5', '2.0'])}, "
-                             f"{r.choice(['NULL', chr(39) + 'x' + chr(39), chr(39) + 'it' + chr(39) * 2 + 's' + chr(39), chr(39) * 2, chr(39) + 'b' + chr(92) + 's' + chr(39)])})" for _ in range(r.randint(1, 3)))
+                             f"{r.choice(['NULL', chr(39) + 'x' + chr(39), chr(39) + 'it' + chr(39) * 2 + 's' + chr(39), chr(39) * 2, chr(39) + 'b' + chr(92) + 's' + chr(39), '1', '1.0', '2', '2.0', '-3.0', '0.50'])})" for _ in range(r.randint(1, 3)))
             return f'INSERT INTO {self.qual("t1")} (id, a, b, c) VALUES {rows}'
         if k == 'insert-select':
             return f'INSERT INTO {self.qual("t2")} (id, a, d) SELECT p.id + 100, p.a, p.c FROM {self.qual("t1")} AS p WHERE {self.bool_expr([("p", "t1")], 1)}'
